@@ -67,8 +67,15 @@ Fixpoint parsed_fs (fs : fsys) : option CompilerValidate.pfs :=
     end
   end.
 
-Definition parse_program (fs : fsys) (root : path) : fres :=
+(** with the diagnostic (the judge reads the class of the error off it for its branch tag) *)
+Definition parse_program_diag (fs : fsys) (root : path) : option CompilerValidate.pres :=
   match parsed_fs fs with
-  | Some pfs => fres_of (CompilerValidate.cparse_program pfs root)
+  | Some pfs => Some (CompilerValidate.cparse_program pfs root)
+  | None => None
+  end.
+
+Definition parse_program (fs : fsys) (root : path) : fres :=
+  match parse_program_diag fs root with
+  | Some r => fres_of r
   | None => FFuel
   end.
